@@ -245,12 +245,13 @@ pub fn parse_file_internal(context: &ParseContext) -> Result<(), Error> {
     } = context.clone();
     let include_paths = include_paths.borrow_mut();
 
-    let current_path = if !current_path.as_path().exists() {
+    // a directory of that name is not the file that is looked for
+    let current_path = if !current_path.as_path().is_file() {
         let mut new_path = PathBuf::new();
         for parent in include_paths.iter() {
             let mut full_path = parent.clone();
             full_path.push(current_path.clone());
-            if full_path.as_path().exists() {
+            if full_path.as_path().is_file() {
                 new_path = full_path;
                 break;
             }
@@ -282,7 +283,13 @@ pub fn parse_file_internal(context: &ParseContext) -> Result<(), Error> {
     }
 
     let mut source = String::new();
-    file.read_to_string(&mut source)?;
+    if let Err(err) = file.read_to_string(&mut source) {
+        bail!(
+            "Cannot read file {} because: {}",
+            current_path.to_string_lossy(),
+            err
+        );
+    }
 
     let known_paths = include_paths.clone();
     let include_paths = RefCell::new(include_paths);
